@@ -735,6 +735,7 @@ func (h *Harness) Families() []*report {
 	f.scoping()
 	f.floats()
 	f.namespaces()
+	f.unicodeText()
 	h.mu.Lock()
 	h.ctx.Extra["family_cases"] = len(f.cases)
 	h.mu.Unlock()
